@@ -185,11 +185,14 @@ def run(ctx: core.Ctx) -> None:
     q = ctx.quick
     # ---- design level -----------------------------------------------------
     core.model_check(ctx, "MC_CRNStore", label="one-store",
-                     defines={"MaxLive": "1" if q else "2", "Rules": '{"r"}', "TwoStores": "FALSE", "SmallMenu": "FALSE"},
+                     defines={"MaxLive": "1" if q else "2", "Rules": '{"r"}', "TwoStores": "FALSE", "SmallMenu": "FALSE", "GenCollides": "FALSE"},
                      timeout=1800)
     core.model_check(ctx, "MC_CRNStore", label="two-stores",
-                     defines={"MaxLive": "1" if q else "2", "Rules": '{"r"}', "TwoStores": "TRUE", "SmallMenu": "TRUE"},
+                     defines={"MaxLive": "1" if q else "2", "Rules": '{"r"}', "TwoStores": "TRUE", "SmallMenu": "TRUE", "GenCollides": "FALSE"},
                      timeout=1800)
+    # the store as it was before the repair of the generated-id collision: TLC must find a reaction that is overwritten
+    core.model_check(ctx, "MC_CRNStore", label="one-store-generated-id-may-collide", expect_violation=True,
+                     defines={"MaxLive": "2", "Rules": '{"r"}', "TwoStores": "FALSE", "SmallMenu": "TRUE", "GenCollides": "TRUE"}, timeout=1800)
     # ---- code -> spec -----------------------------------------------------
     depth = 3 if q else 4
     core.run_stage(ctx, Histories(f"exhaustive-depth{depth}", exhaustive(depth)))
